@@ -1757,6 +1757,39 @@ func (c *collector) corpus() {
 		c.fixedHistory(uf2, empty, []fixedRun{{local: both, opts: mm, faults: []FAddr{stream}},
 			{opts: Opts{Destroy: true, Prune: true, Policy: PMustMatch, PruneTimeout: true}}, {opts: Opts{Destroy: true, Prune: true, Policy: PMustMatch, PruneTimeout: true}}})
 	}
+	// 22. (mutation campaign mutE, applier.go localNamespaces) a tracked Namespace object leaves the apply set
+	// while the apply set still has an object in that namespace that is INVALID (graph-invalid: malformed
+	// depends-on; field-invalid: unknown apiVersion): the invalid object is not in the dependency graph, so
+	// only the LocalNamespacesFilter (computed from ALL local objects) spares the namespace — with a valid
+	// object the namespace edge of the graph (strategy mismatch) spares it as well and hides the filter
+	{
+		for _, finv := range []bool{false, true} {
+			es := []UEntry{Entry("Namespace", "", otherNS), Entry("ConfigMap", otherNS, "cm-a"), Entry("ConfigMap", invNS, "cm-b")}
+			if finv {
+				es = []UEntry{Entry("Namespace", "", otherNS), EntryInvalid("apps/v9", "Deployment", otherNS, "dep-v9"), Entry("ConfigMap", invNS, "cm-b")}
+			}
+			un := NewUniverse(es)
+			ns, in, other := -1, -1, -1
+			for i, e := range un {
+				switch {
+				case e.Kind == KNs:
+					ns = i
+				case e.Meta.Namespace == otherNS:
+					in = i
+				default:
+					other = i
+				}
+			}
+			tracked := Cluster{NextUID: 100, HasInv: true, Inv: []int{ns, other}, Objs: []CObj{
+				CObj{ID: ns, UID: 1, Owner: OOurs, Ver: 1}.Applied(), CObj{ID: other, UID: 2, Owner: OOurs, Ver: 1}.Applied()}}
+			sort.Slice(tracked.Objs, func(i, j int) bool { return tracked.Objs[i].ID < tracked.Objs[j].ID })
+			sort.Ints(tracked.Inv)
+			bad := LObj{ID: in, Ver: 1, BadDep: !finv, FInv: finv}
+			for _, pol := range []Policy{PMustMatch, PAdoptAll} {
+				c.fixedHistory(un, tracked, []fixedRun{{local: []LObj{bad, {ID: other, Ver: 1}}, opts: Opts{Prune: true, Policy: pol, ValPol: VSkipInvalid}}})
+			}
+		}
+	}
 	// a plain round trip: apply two, apply one (prune), destroy
 	c.fixedHistory(u, Cluster{NextUID: 100}, []fixedRun{
 		{local: []LObj{{ID: 0, Ver: 1}, {ID: 1, Ver: 1, Deps: []int{0}}}, opts: Opts{Prune: true, Policy: PMustMatch}},
